@@ -85,9 +85,14 @@ def run(rep, tier, seed, replay):
                         "bitfield allocated (Download::open state); files are not modified by anyone else while the torrent is open",
                         "op R = FileList/Download close + open + bitfield allocate + unset_all + update_completed (what Download::open + "
                         "Download::hash_check do without resume data); op S sets a bitfield bit only (resume / hash bookkeeping), U = update_completed",
-                        "per-file completed_chunks: exact (= set pieces overlapping the file, <= its piece count) for non-empty files that do not "
-                        "start exactly on a piece boundary; for files starting exactly at the end of a completed piece and for empty files passed by "
-                        "the inc_completed walk the oracle accepts the code's known extra increment (DESIGN.md section 8, C02 note) and nothing else",
+                        "per-file completed_chunks (File::completed_chunks): oracle = number of set pieces overlapping the file, never above its "
+                        "piece count, 0 for empty files (strict since fix 17569a5; a counter above that is klass file-completed-overcount); "
+                        "after raw bitfield edits (op S) the counters are only compared again after update_completed / re-open",
+                        "op H = HashChunk over create_hashing_chunk_index(idx) with a schedule of perform(l, force=true) calls; the model prints the bytes "
+                        "handed to SHA-1 and the glue hashes them with hashlib (SHA-1 is an external function on both sides); incore_length / "
+                        "force=false is not modelled",
+                        "parts carry MemoryChunk::page_align(); the model computes file_offset mod page for the page size of this machine (LTV_PAGE); "
+                        "the theorems hold for every page size > 0",
                         "file images in the model are sparse (length + written cells, zero elsewhere) so >4 GiB files are ordinary inputs; such cases "
                         "are compared through pread windows (op P), never dumped",
                         "one Chunk alive at a time in the correspondence (the ChunkList reference counting is not part of C02)",
